@@ -406,7 +406,7 @@ func vfGenC14Seq(rt *rapid.T) vfC14SeqCase {
 	cs.Tunnel = rapid.IntRange(0, 2).Draw(rt, "tunnel") == 0
 	n := rapid.IntRange(2, 5).Draw(rt, "n")
 	for i := 0; i < n; i++ {
-		cs.Acts = append(cs.Acts, vfC05Act{Kind: "transfer", Outcome: rapid.SampledFrom([]string{"succeeded", "succeeded", "refused", "failed", "stopped", "stopped_ui", "sigint", "sigint"}).Draw(rt, "outcome"),
+		cs.Acts = append(cs.Acts, vfC05Act{Kind: "transfer", Outcome: rapid.SampledFrom([]string{"succeeded", "succeeded", "refused", "failed", "stopped", "stopped_ui", "sigint", "sigint", "forked"}).Draw(rt, "outcome"),
 			Upload: rapid.Bool().Draw(rt, "upload")})
 	}
 	cs.Acts = append(cs.Acts, vfC05Act{Kind: "transfer", Outcome: "succeeded", Upload: rapid.Bool().Draw(rt, "lastupload")})
